@@ -377,6 +377,80 @@ def t_flen(F, R):
     R.floor("T-flen", "evaluations", nev, 18)
 
 
+def _fsplit_texts():
+    bases = ["$share/g/t", "$share/gg/t/u", "$share/g/+", "$share/g/#", "$share/\u00e9/t", "$share/g/\u00e9", "$share/\u20ac\u20ac/t/+/#",
+             "$share/\U0001F600x/a/b", "$share/g//", "$share/g/$share/h/t"]
+    texts = list(bases)
+    repl = ["x", "S", "\u00e9", "\u20ac", "\U0001F600", "/", "\u00df"]
+    for b in bases[:3]:
+        for i in range(7):
+            for r in repl:
+                if b[i] != r:
+                    texts.append(b[:i] + r + b[i + 1:])
+    for b in bases[:2]:
+        for r in ("x", "\u00e9", "/", "$"):
+            texts.append(r + b)                      # the prefix shifted by one character / by two bytes
+            texts.append(b[:6] + r + b[6:])          # a character between "$share" and its '/'
+    texts += ["a", "a/b/c", "/", "//", "/a", "a/", "+", "#", "+/+", "a/+/b", "a/#", "$SYS/a/b", "$share", "$shar/g/t", "$sharex/g/t",
+              "\u00e9/\u00e9/\u00e9", "\u20ac$share/g/t", "$Share/g/t", "$share\u00e9/g/t", "$SHARE/g/t", "s/h/a/r/e/x/y", "$/s/h", "$s/h/a",
+              "$sh/a/r", "$sha/r/e", "$shar/e/f", "$share/\u00e9\u00e9\u00e9/\u00e9/\u00e9", "$share/0123456789/t"]
+    seen, out = set(), []
+    for t in texts:
+        if t not in seen:
+            seen.add(t)
+            out.append(t)
+    return out
+
+
+def t_fsplit(F, R):
+    """Whenever TopicFilter::is_invalid accepts a text, the byte index it returns (the one the share-name and filter accessors slice
+    at) is 0 for a text that does not start with "$share/" and, for one that does, the byte index of the '/' that ends the share
+    name: evaluated on a family of short texts -- genuine shared filters with one-, two-, three- and four-byte characters in the
+    share name and in the filter, every one of the seven prefix positions replaced by another ASCII character, by a character of
+    another case and by two-, three- and four-byte characters, the prefix shifted, and non-shared filters that contain the prefix's
+    characters. The accept/refuse decision itself is not judged here."""
+    fid = "common::types::TopicFilter::is_invalid"
+    if fid not in F.fns:
+        raise AnchorLost(fid)
+    state = {}
+    pe_box = [None]
+    hook = _name_hook(F, state, pe_box)
+    bad, nev, nacc, nshared = [], 0, 0, 0
+    for text in _fsplit_texts():
+        raw = text.encode("utf-8")
+        state.update({"len": len(raw), "log": [], "chars": [ord(c) for c in text]})
+        pe = PE(F, call_hook=hook, fuel=4000)
+        pe_box[0] = pe
+        try:
+            r = pe.call_fn(fid, [Sym("arg0")])
+        except Undecided as e:
+            if any(ev[0] == "panic" for ev in pe.events):
+                bad.append((text, "panics (%s)" % (pe.events[-1][1],)))
+                nev += 1
+                continue
+            raise AnchorLost("TopicFilter::is_invalid cannot be evaluated on %r: %s" % (text, e))
+        nev += 1
+        if not (isinstance(r, Tup) and len(r.items) == 2 and isinstance(r.items[0], bool) and isinstance(r.items[1], int)):
+            raise AnchorLost("TopicFilter::is_invalid(%r) evaluates to %r" % (text, r))
+        inv, sep = r.items
+        if inv:
+            continue
+        nacc += 1
+        if raw.startswith(b"$share/"):
+            k = raw.find(b"/", 7)
+            if k > 0:
+                nshared += 1
+                if sep != k:
+                    bad.append((text, "accepted with index %d; the share name ends at byte %d" % (sep, k)))
+        elif sep != 0:
+            bad.append((text, "accepted with index %d although it does not start with $share/" % sep))
+    R.check(not bad, "T-fsplit", "index",
+            "TopicFilter::is_invalid returns a wrong split index: %d text(s), e.g. %r %s" % ((len(bad),) + (bad[0] if bad else ("", ""))), where=fid)
+    R.sample({"rule": "T-fsplit", "evaluations": nev, "accepted": nacc, "accepted shared": nshared})
+    R.floor("T-fsplit", "evaluations", nev, 150)
+    R.floor("T-fsplit", "accepted shared filters", nshared, 8)
+
+
 def _char_set(F, pred):
     """{c : pred(c)} for a char predicate (closure or a char constant), by witness evaluation."""
     if isinstance(pred, int):
